@@ -25,6 +25,7 @@ type genParams struct {
 	PCancel   float64
 	PNil      float64
 	PEres     float64
+	PBLeaf    float64 // probability that a leaf is a (one-item) batch node
 	PEmptyAct float64
 	MaxVisits int
 }
@@ -117,7 +118,11 @@ func genEngineCfg(r *rand.Rand, p genParams) EngineCfg {
 	styles := []string{"r", "a"}
 	for i := 0; i < nLeaves; i++ {
 		n := NodeCfg{Kind: "leaf", Sty: []string{"-", "-", "-"}, N: 1}
-		switch r.Intn(9) {
+		pick := r.Intn(9)
+		if p.PBLeaf > 0 && r.Float64() < p.PBLeaf {
+			pick = 8
+		}
+		switch pick {
 		case 8: // a batch node as a flow step
 			if p.MaxFlows > 0 {
 				n.Kind, n.Retry = "bleaf", true
@@ -242,6 +247,10 @@ func paramsFor(mode string) genParams {
 			p.PCancel = 0
 			p.MaxVisits = 8
 		}
+	case "batchflow": // flows whose steps are mostly batch nodes, cancelled from inside an item
+		p.PBLeaf = 0.75
+		p.MaxFlows, p.MaxLeaves, p.MaxRuns = 2, 4, 2
+		p.PExecErr, p.PCancel = 0.3, 0.1
 	case "nest": // deep hierarchies, no failures
 		p.MaxFlows, p.MaxLeaves = 5, 6
 		p.PExecErr = 0.1
